@@ -136,6 +136,30 @@ Example typed_value_roundtrip_ex :
 Proof. vm_compute. repeat split. Qed.
 Print Assumptions typed_value_roundtrip_ex.
 
+(* [data] sources / receivers / frequencies (every TStrList option): whatever
+   list of names is written -- comma separated, names without commas and
+   without surrounding blanks -- the parser hands on exactly that list: ORDER
+   AS WRITTEN, repeated names KEPT (no sorting, no de-duplication).  Together
+   with [typed_value_roundtrip] this is what reaches Survey.select. *)
+Theorem strlist_order_as_written : forall names,
+  names <> [] ->
+  Forall (fun n => lacks ","%char n = true /\ trim n = n) names ->
+  String.concat "," names <> EmptyString ->
+  read_value TStrList (String.concat "," names) = Ok (Some (VStrs names)).
+Proof. exact strlist_as_written. Qed.
+Print Assumptions strlist_order_as_written.
+
+(* not sorted, blanks stripped, repeated name kept, trailing comma = empty name *)
+Example strlist_order_as_written_ex :
+  read_value TStrList "RxEP-3, RxEP-10 ,RxEP-3,RxEP-2,"
+  = Ok (Some (VStrs ["RxEP-3"; "RxEP-10"; "RxEP-3"; "RxEP-2"; ""]))
+  /\ forallb (fun e => match p_ty e with
+                       | TStrList => String.eqb (p_path e) "data"
+                       | _ => negb (String.eqb (p_path e) "data" && negb (String.eqb (p_key e) "remove_empty"))
+                       end) parser_table = true.
+Proof. vm_compute. split; reflexivity. Qed.
+Print Assumptions strlist_order_as_written_ex.
+
 (* A terminal argument overrides the configuration file. *)
 Theorem terminal_overrides_file : forall ap c t o e dest v,
   parse ap c t = Ok o -> In e parser_table ->
